@@ -94,9 +94,13 @@ def pick_last_mtime(rng, case):
     mts = sorted(o['mt'] for o in case['mtimes'])
     if not mts:
         return None
-    k = rng.randrange(6)
+    k = rng.randrange(7)
     if k == 0:
         return None
+    if k == 6:
+        # later than anything in the tree, directories included (a verification long
+        # after the last change)
+        return 4000000000.0
     if k == 1:
         return mts[0] - 10
     if k == 2:
